@@ -15,6 +15,7 @@ import TapkeeVerif.Proofs.LocallyLinearFlatExact
 import TapkeeVerif.Proofs.LocallyLinearFlatHlle
 import TapkeeVerif.Proofs.LocallyLinearFlatHlleExact
 import TapkeeVerif.Proofs.Inertia
+import TapkeeVerif.Proofs.Triplets
 /-!
 C08 property theorems: the sparse matrices assembled by `routines/locally_linear.hpp`
 (`linear_weight_matrix`, `tangent_weight_matrix`, `hessian_weight_matrix`) in closed matrix form.
@@ -1020,6 +1021,20 @@ example : ∀ M', hlleM flNb4
   hlle_affine_in_nullspace flNb4 _ (1 / 10000) flU4 flA flA_inj flb flT4 (by norm_num) flLam4 fl4_heig (by norm_num)
     (by decide +kernel) 5 (fun _ => 3)
 
+/-! ## Assembly facts re-exported from `Proofs/Triplets.lean` (named in the MANIFEST) -/
 
+section TripletFacts
+variable {K' : Type} [AddCommMonoid K'] {n' m' : Nat}
+
+/-- the assembled sparse matrix does not depend on the order in which the OpenMP critical section appended the
+    per-sample blocks -/
+theorem fromTriplets_perm {a b : List (Triplet n' m' K')} (h : a.Perm b) : fromTriplets a = fromTriplets b :=
+  _root_.TapkeeVerif.fromTriplets_perm h
+
+/-- the one-pass `+=` assembly (what `setFromTriplets` does, what the driver runs) is the sum of duplicates -/
+theorem fromTripletsD_get (ts : List (Triplet n' m' K')) : (fromTripletsD ts).get = fromTriplets ts :=
+  _root_.TapkeeVerif.fromTripletsD_get ts
+
+end TripletFacts
 
 end TapkeeVerif.C08
